@@ -5,6 +5,7 @@ the definitions translated from `resonaate/physics/maths.py` on every run.
 -/
 import RV.Bridge.Maths
 import RV.Props.C16
+import RV.Generated.MathsF64
 namespace RV.Bridge.MathsProps
 open RV.Generated RV.Props.C16
 
@@ -32,5 +33,19 @@ theorem code_wrapNegPiPi_range (x : Rat) : -PI < Maths.wrapAngleNegPiPi x ∧ Ma
 theorem code_vecResiduals_turns (a b : Rat) (k m : Int) :
     Maths.vecResiduals (a + k * TWOPI) (b + m * TWOPI) true = Maths.vecResiduals a b true := by
   simp only [RV.Bridge.Maths.vecResiduals_eq]; exact vecResidual_turns PI TWOPI hPI hTAU a b k m
+
+/-! ### the open known finding of C12, machine-checked
+
+The theorems above are about the source read in exact arithmetic (the level of the angle model). Read in binary64 - `fmod` exact, `angle += TWOPI`
+one rounded addition - the same source leaves [0, 2 pi): for `x = -2^-53` the sum `x + TWOPI` rounds to `TWOPI` itself. This is the finding the C12
+check lists as known (`known_findings.json`); the witness below is its record in Lean, and `code_wrap2Pi_range` is the statement it falsifies once
+rounding is taken into account. -/
+theorem wrap2Pi_binary64_reaches_full_turn :
+    MathsF64.wrapAngle2Pi (-(1 / 9007199254740992)) = TWOPI ∧ ¬ (MathsF64.wrapAngle2Pi (-(1 / 9007199254740992)) < TWOPI) := by
+  decide +kernel
+
+/-- an ordinary negative angle is wrapped into range by the binary64 reading as well -/
+theorem wrap2Pi_binary64_ordinary : 0 ≤ MathsF64.wrapAngle2Pi (-1) ∧ MathsF64.wrapAngle2Pi (-1) < TWOPI := by
+  decide +kernel
 
 end RV.Bridge.MathsProps
